@@ -27,31 +27,31 @@ package api
 //@ iface api.FeatureInterface.Type pure const
 //@ iface api.FeatureInterface.Role pure const
 //@ iface api.FeatureInterface.Operations pure
-//@ iface api.FeatureLocalInterface.Device pure const
-//@ iface api.FeatureLocalInterface.Entity pure const
-//@ iface api.FeatureRemoteInterface.Device pure const
-//@ iface api.FeatureRemoteInterface.Entity pure const
+//@ iface api.FeatureLocalInterface.Device pure const ensures result != nil
+//@ iface api.FeatureLocalInterface.Entity pure const ensures result != nil
+//@ iface api.FeatureRemoteInterface.Device pure const ensures result != nil
+//@ iface api.FeatureRemoteInterface.Entity pure const ensures result != nil
 
-//@ iface api.EntityInterface.Address pure const
+//@ iface api.EntityInterface.Address pure const ensures result != nil
 //@ iface api.EntityInterface.EntityType pure const
-//@ iface api.EntityRemoteInterface.Device pure const
+//@ iface api.EntityRemoteInterface.Device pure const ensures result != nil
 //@ iface api.EntityRemoteInterface.FeatureOfAddress pure
 //@ iface api.EntityRemoteInterface.Features pure
-//@ iface api.EntityLocalInterface.Device pure const
+//@ iface api.EntityLocalInterface.Device pure const ensures result != nil
 //@ iface api.EntityLocalInterface.FeatureOfAddress pure
 //@ iface api.EntityLocalInterface.Features pure
 
 //@ iface api.DeviceInterface.Address pure
 //@ iface api.DeviceRemoteInterface.Ski pure const
-//@ iface api.DeviceRemoteInterface.Sender pure const
+//@ iface api.DeviceRemoteInterface.Sender pure const ensures result != nil
 //@ iface api.DeviceRemoteInterface.Entities pure
 //@ iface api.DeviceRemoteInterface.Entity pure
 //@ iface api.DeviceRemoteInterface.FeatureByAddress pure
 //@ iface api.DeviceLocalInterface.FeatureByAddress pure
 //@ iface api.DeviceLocalInterface.Entities pure
-//@ iface api.DeviceLocalInterface.BindingManager pure const
-//@ iface api.DeviceLocalInterface.SubscriptionManager pure const
-//@ iface api.DeviceLocalInterface.NodeManagement pure const
+//@ iface api.DeviceLocalInterface.BindingManager pure const ensures result != nil
+//@ iface api.DeviceLocalInterface.SubscriptionManager pure const ensures result != nil
+//@ iface api.DeviceLocalInterface.NodeManagement pure const ensures result != nil
 
 // data update of a remote feature's replicated function data (details: C02)
 //@ iface api.FeatureRemoteInterface.UpdateData
